@@ -5,7 +5,7 @@
    again contains no expression reference.  Function calls are delegated to
    call_refines (Proofs/FunFacts.v). *)
 From JM Require Import Model.Base Model.Num Model.Utf8 Model.Value Model.JsonText
-     Model.Slice Model.Functions Model.Interp.
+     Model.Slice Model.Functions Model.Interp Model.Lexer Model.Parser Model.Api.
 From JM Require Import Spec.Grammar Spec.PySlice Spec.Semantics.
 From JM Require Import Proofs.ValueFacts Proofs.SliceFacts Proofs.FunFacts.
 From Coq Require Import ZifyBool Permutation.
@@ -266,7 +266,7 @@ Definition carg (a : arg) : node :=
 Lemma args_agree f args v :
   (forall a, In a args -> agrees f (compile (match a with AExpr x => x | ARef x => x end))
                                  (eval ord (match a with AExpr x => x | ARef x => x end))) ->
-  (1 <= f)%nat -> plain v = true ->
+  ((1 <= f)%nat \/ args = []) -> plain v = true ->
   match mapM (fun a => Execute ord f (carg a) v) args, mapM (eval_arg v) args with
   | Ok m, Ok s => Forall2 (arg_rel f) m s
   | Err e, Err e' => e = e'
@@ -275,7 +275,8 @@ Lemma args_agree f args v :
   | _, _ => False
   end.
 Proof.
-  intros Hall Hf Hv. induction args as [|a args IHa]; cbn [mapM]; [constructor|].
+  intros Hall Hf Hv. destruct Hf as [Hf|Hf]; [|subst; constructor].
+  induction args as [|a args IHa]; cbn [mapM]; [constructor|].
   assert (IHa' := IHa (fun b Hb => Hall b (or_intror Hb))). clear IHa.
   assert (Ha := Hall a (or_introl eq_refl)).
   destruct a as [x|x]; cbn [carg eval_arg].
@@ -411,10 +412,18 @@ Lemma ex_call f name ch v :
   (args <- mapM (fun a => Execute ord f a v) ch ;; CallFunction ord (Execute ord f) name args).
 Proof. reflexivity. Qed.
 
+Lemma node_depth_pos (n : node) : (1 <= node_depth n)%nat.
+Proof. destruct n. cbn. lia. Qed.
+
+Lemma depth_in_list (x : node) (l : list node) :
+  In x l -> (node_depth x <= fold_right (fun y a => Nat.max (node_depth y) a) 0 l)%nat.
+Proof. induction l as [|y l IH]; intros H; [destruct H|]. cbn. destruct H as [->|H]; [lia|]. specialize (IH H). lia. Qed.
+
 Ltac ok_const := split; [reflexivity | let r := fresh "r" in let Hr := fresh "Hr" in intros r Hr; inversion Hr; subst; reflexivity].
 
 Ltac fuel_S fuel f H :=
-  destruct fuel as [|f]; [cbn in H; lia|].
+  cbn [node_depth fold_right N0] in H;
+  destruct fuel as [|f]; [lia|].
 
 Ltac split_ok H :=
   repeat match type of H with
@@ -423,49 +432,51 @@ Ltac split_ok H :=
 
 Theorem execute_eval :
   forall n e, (esize e <= n)%nat -> sem_ok e = true ->
-  forall fuel, (esize e <= fuel)%nat -> agrees fuel (compile e) (eval ord e).
+  forall fuel, (node_depth (compile e) <= fuel)%nat -> agrees fuel (compile e) (eval ord e).
 Proof.
   induction n as [|n IH]; intros e Hn Hok fuel Hf.
   { destruct e; cbn in Hn; lia. }
   (* derived induction hypotheses *)
-  assert (IHl : forall l f, (osize l <= n)%nat -> ook l = true -> (osize l <= f)%nat ->
+  assert (IHl : forall l f, (osize l <= n)%nat -> ook l = true -> (node_depth (lhs_node l) <= f)%nat ->
                             agrees f (lhs_node l) (lhs_eval l)).
-  { intros [x|] f Hs Ho Hfl; cbn in *.
+  { intros [x|] f Hs Ho Hfl; cbn [lhs_node lhs_eval osize ook node_depth ident_node fold_right] in *.
     - apply IH; assumption.
     - destruct f as [|f]; [lia|]. intros v Hv. split; [reflexivity|]. intros r Hr. inversion Hr; subst; exact Hv. }
-  assert (IHr : forall r f, (rsize r <= n)%nat -> rok r = true -> (rsize r <= f)%nat ->
+  assert (IHr : forall r f, (rsize r <= n)%nat -> rok r = true -> (node_depth (rhs_node r) <= f)%nat ->
                             agrees f (rhs_node r) (rhs_eval r)).
-  { intros [|x|x] f Hs Ho Hfl; cbn in *.
+  { intros [|x|x] f Hs Ho Hfl; cbn [rhs_node rhs_eval rsize rok node_depth ident_node fold_right] in *.
     - destruct f as [|f]; [lia|]. intros v Hv. split; [reflexivity|]. intros r Hr. inversion Hr; subst; exact Hv.
     - apply IH; assumption.
     - apply IH; assumption. }
   destruct e as [q name | | lv | s | x | es | kvs | fname args | x | l i | l a b c r | l r | l r | l c r | l r
                  | l r | l r | l r | l r | op l r].
   - (* EIdent *)
-    fuel_S fuel f Hf. intros v Hv. cbn. split.
+    cbn [compile] in Hf. fuel_S fuel f Hf. intros v Hv. cbn. split.
     + destruct v; reflexivity.
     + intros r Hr. destruct v as [ | | | | | m | ]; inversion Hr; subst; try reflexivity.
       destruct (obj_get name m) eqn:E; [eapply plain_obj_get; eauto | reflexivity].
   - (* ECurrent *)
-    fuel_S fuel f Hf. intros v Hv. cbn. split; [reflexivity|]. intros r Hr. inversion Hr; subst; exact Hv.
+    cbn [compile] in Hf. fuel_S fuel f Hf. intros v Hv. cbn. split; [reflexivity|]. intros r Hr. inversion Hr; subst; exact Hv.
   - (* ELit *)
-    fuel_S fuel f Hf. intros w Hw. cbn. split; [reflexivity|]. intros r Hr. inversion Hr; subst; exact Hok.
+    cbn [compile] in Hf. fuel_S fuel f Hf. intros w Hw. cbn. split; [reflexivity|]. intros r Hr. inversion Hr; subst; exact Hok.
   - (* ERaw *)
-    fuel_S fuel f Hf. intros w Hw. cbn. split; [reflexivity|]. intros r Hr. inversion Hr; subst; reflexivity.
+    cbn [compile] in Hf. fuel_S fuel f Hf. intros w Hw. cbn. split; [reflexivity|]. intros r Hr. inversion Hr; subst; reflexivity.
   - (* EParen *)
     change (esize (EParen x)) with (S (esize x)) in *. change (sem_ok (EParen x)) with (sem_ok x) in Hok.
-    change (compile (EParen x)) with (compile x).
+    change (compile (EParen x)) with (compile x) in *.
     intros v Hv. change (eval ord (EParen x) v) with (eval ord x v).
     apply (IH x); [lia | exact Hok | lia | exact Hv].
   - (* EMSList *)
-    change (esize (EMSList es)) with (S (S (fold_right (fun x a => esize x + a)%nat 0%nat es))) in *.
+    change (esize (EMSList es)) with (S (S (fold_right (fun x a => esize x + a)%nat 0%nat es))) in Hn.
     change (sem_ok (EMSList es)) with (forallb sem_ok es) in Hok.
+    change (compile (EMSList es)) with (N0 ASTMultiSelectList (map compile es)) in *.
     fuel_S fuel f Hf. intros v Hv.
     assert (Hall : forall x, In x es -> agrees f (compile x) (eval ord x)).
     { intros x Hx. assert (Hsz : (esize x <= fold_right (fun x a => esize x + a) 0 es)%nat).
       { clear - Hx. induction es as [|y es IHes]; [destruct Hx|]. cbn. destruct Hx as [->|Hx]; [lia|]. specialize (IHes Hx). lia. }
+      pose proof (depth_in_list (compile x) (map compile es) (in_map compile es x Hx)).
       apply IH; [lia | | lia]. rewrite forallb_forall in Hok. auto. }
-    rewrite eval_mslist. change (compile (EMSList es)) with (N0 ASTMultiSelectList (map compile es)).
+    rewrite eval_mslist.
     rewrite ex_mslist.
     destruct (is_null v) eqn:En; [destruct v; try discriminate; ok_const|].
     rewrite mapM_map.
@@ -475,33 +486,40 @@ Proof.
     destruct (mapM (fun x => eval ord x v) es) as [ys| | |] eqn:Eg; cbn in Hr; try discriminate.
     inversion Hr; subst. apply plain_arr. apply Pm. reflexivity.
   - (* EMSHash *)
-    change (esize (EMSHash kvs)) with (S (S (S (fold_right (fun kv a => esize (snd kv) + a)%nat 0%nat kvs)))) in *.
+    change (esize (EMSHash kvs)) with (S (S (S (fold_right (fun kv a => esize (snd kv) + a)%nat 0%nat kvs)))) in Hn.
     change (sem_ok (EMSHash kvs)) with (forallb (fun kv : bool * bytes * expr => sem_ok (snd kv)) kvs) in Hok.
-    fuel_S fuel f Hf. fuel_S f f2 Hf. intros v Hv.
-    assert (Hall : forall kv : bool * bytes * expr, In kv kvs -> agrees f2 (compile (snd kv)) (eval ord (snd kv))).
-    { intros kv Hkv. assert (Hsz : (esize (snd kv) <= fold_right (fun kv a => esize (snd kv) + a) 0 kvs)%nat).
-      { clear - Hkv. induction kvs as [|y kvs IHk]; [destruct Hkv|]. cbn. destruct Hkv as [->|Hkv]; [lia|]. specialize (IHk Hkv). lia. }
-      apply IH; [lia | | lia]. rewrite forallb_forall in Hok. auto. }
-    rewrite eval_mshash.
     change (compile (EMSHash kvs))
       with (N0 ASTMultiSelectHash (map (fun kv : bool * bytes * expr =>
-                                          Node ASTKeyValPair (NVStr (snd (fst kv))) [compile (snd kv)]) kvs)).
+                                          Node ASTKeyValPair (NVStr (snd (fst kv))) [compile (snd kv)]) kvs)) in *.
+    fuel_S fuel f Hf. intros v Hv.
+    assert (Hall : forall kv : bool * bytes * expr, In kv kvs ->
+               exists f2, f = S f2 /\ agrees f2 (compile (snd kv)) (eval ord (snd kv))).
+    { intros kv Hkv. assert (Hsz : (esize (snd kv) <= fold_right (fun kv a => esize (snd kv) + a) 0 kvs)%nat).
+      { clear - Hkv. induction kvs as [|y kvs IHk]; [destruct Hkv|]. cbn. destruct Hkv as [->|Hkv]; [lia|]. specialize (IHk Hkv). lia. }
+      pose proof (depth_in_list _ _ (in_map (fun kv : bool * bytes * expr =>
+                      Node ASTKeyValPair (NVStr (snd (fst kv))) [compile (snd kv)]) kvs kv Hkv)) as Hd.
+      cbn [node_depth fold_right] in Hd. destruct f as [|f2]; [lia|]. exists f2. split; [reflexivity|].
+      apply IH; [lia | | lia]. rewrite forallb_forall in Hok. auto. }
+    rewrite eval_mshash.
     rewrite ex_mshash.
     destruct (is_null v) eqn:En; [destruct v; try discriminate; ok_const|].
     rewrite mapM_map. rewrite (match_not_null v _ _ En).
     rewrite (mapM_ext_in _ (fun kv : bool * bytes * expr => y <- eval ord (snd kv) v ;; Ok (snd (fst kv), y))).
-    2:{ intros kv Hkv. rewrite ex_kvp. cbn [node_val]. destruct (Hall kv Hkv v Hv) as [E _]. rewrite E. reflexivity. }
+    2:{ intros kv Hkv. destruct (Hall kv Hkv) as [f2 [-> Hag]]. rewrite ex_kvp. cbn [node_val].
+        destruct (Hag v Hv) as [E _]. rewrite E. reflexivity. }
     split; [reflexivity|]. intros r Hr.
     destruct (mapM _ kvs) as [ys| | |] eqn:Eg in Hr; cbn in Hr; try discriminate.
     inversion Hr; subst. apply plain_fold_obj_set; [|reflexivity].
     eapply mapM_ok_forall; [|exact Eg]. intros kv y Hkv Hy. cbn in Hy.
     destruct (eval ord (snd kv) v) as [z| | |] eqn:Ez; cbn in Hy; try discriminate. inversion Hy; subst. cbn.
-    eapply (Hall kv Hkv v Hv). exact Ez.
+    destruct (Hall kv Hkv) as [f2 [_ Hag]]. eapply (Hag v Hv). exact Ez.
   - (* ECall *)
     change (esize (ECall fname args))
-      with (S (S (fold_right (fun a acc => (match a with AExpr x => esize x | ARef x => esize x end) + acc)%nat 0%nat args))) in *.
+      with (S (S (fold_right (fun a acc => (match a with AExpr x => esize x | ARef x => esize x end) + acc)%nat 0%nat args))) in Hn.
     change (sem_ok (ECall fname args))
       with (forallb (fun a => match a with AExpr x => sem_ok x | ARef x => sem_ok x end) args) in Hok.
+    change (compile (ECall fname args)) with (Node ASTFunctionExpression (NVStr fname) (map carg args)) in *.
+
     fuel_S fuel f Hf. intros v Hv.
     assert (Hall : forall a, In a args ->
                agrees f (compile (match a with AExpr x => x | ARef x => x end))
@@ -511,11 +529,15 @@ Proof.
                      <= fold_right (fun a acc => (match a with AExpr x => esize x | ARef x => esize x end) + acc) 0 args)%nat).
       { clear - Ha. induction args as [|y args IHa]; [destruct Ha|]. cbn. destruct Ha as [->|Ha]; [lia|]. specialize (IHa Ha). lia. }
       rewrite forallb_forall in Hok. specialize (Hok a Ha).
-      destruct a as [x|x]; (apply IH; [lia | exact Hok | lia]). }
+      pose proof (depth_in_list _ _ (in_map carg args a Ha)) as Hd.
+      destruct a as [x|x]; cbn [carg node_depth fold_right N0] in Hd; (apply IH; [lia | exact Hok | lia]). }
+    assert (Hf1 : (1 <= f)%nat \/ args = []).
+    { destruct args as [|a0 args0]; [right; reflexivity|left].
+      pose proof (depth_in_list _ _ (in_map carg (a0 :: args0) a0 (or_introl eq_refl))) as Hd.
+      pose proof (node_depth_pos (carg a0)). lia. }
     rewrite eval_call.
-    change (compile (ECall fname args)) with (Node ASTFunctionExpression (NVStr fname) (map carg args)).
     rewrite ex_call. rewrite mapM_map.
-    pose proof (args_agree f args v Hall ltac:(lia) Hv) as Hag.
+    pose proof (args_agree f args v Hall Hf1 Hv) as Hag.
     destruct (mapM (fun x => Execute ord f (carg x) v) args) as [m|e1| |],
              (mapM (eval_arg v) args) as [sa|e2| |]; cbn [bind]; try contradiction.
     + apply call_refines. exact Hag.
@@ -524,18 +546,19 @@ Proof.
     + split; [reflexivity | discriminate].
   - (* ENot *)
     change (esize (ENot x)) with (S (esize x)) in *. change (sem_ok (ENot x)) with (sem_ok x) in Hok.
-    fuel_S fuel f Hf. intros v Hv.
-    change (compile (ENot x)) with (N0 ASTNotExpression [compile x]). rewrite ex_not.
+    change (compile (ENot x)) with (N0 ASTNotExpression [compile x]) in *.
+    fuel_S fuel f Hf. intros v Hv. rewrite ex_not.
     change (eval ord (ENot x) v) with (y <- eval ord x v ;; Ok (VBool (falsy y))).
     destruct (IH x ltac:(lia) Hok f ltac:(lia) v Hv) as [E P]. rewrite E.
     destruct (eval ord x v); cbn [bind]; split; try reflexivity; try discriminate.
     all: try (do 2 f_equal; apply isFalse_falsy).
     all: intros r Hr; inversion Hr; reflexivity.
   - (* EIndex *)
-    change (esize (EIndex l i)) with (S (S (osize l))) in *.
+    change (esize (EIndex l i)) with (S (S (osize l))) in Hn.
     change (sem_ok (EIndex l i)) with (ook l && in_int64 i) in Hok.
+    change (compile (EIndex l i)) with (N0 ASTIndexExpression [lhs_node l; Node ASTIndex (NVInt i) []]) in *.
+
     split_ok Hok. fuel_S fuel f Hf. fuel_S f f2 Hf. intros v Hv.
-    change (compile (EIndex l i)) with (N0 ASTIndexExpression [lhs_node l; Node ASTIndex (NVInt i) []]).
     change (eval ord (EIndex l i) v)
       with (x <- lhs_eval l v ;;
             match x with
@@ -551,11 +574,12 @@ Proof.
     rewrite index_agree by (auto; lia). split; [reflexivity|].
     intros r Hr. inversion Hr; subst. apply plain_index_list. exact P.
   - (* ESlice *)
-    change (esize (ESlice l a b c r)) with (S (S (S (osize l + rsize r)))) in *.
+    change (esize (ESlice l a b c r)) with (S (S (S (osize l + rsize r)))) in Hn.
     change (sem_ok (ESlice l a b c r)) with (ook l && opt_int64 a && opt_int64 b && opt_int64 c && rok r) in Hok.
-    split_ok Hok. fuel_S fuel f Hf. fuel_S f f2 Hf. fuel_S f2 f3 Hf. intros v Hv.
     change (compile (ESlice l a b c r))
-      with (N0 ASTProjection [N0 ASTIndexExpression [lhs_node l; Node ASTSlice (NVSlice a b c) []]; rhs_node r]).
+      with (N0 ASTProjection [N0 ASTIndexExpression [lhs_node l; Node ASTSlice (NVSlice a b c) []]; rhs_node r]) in *.
+
+    split_ok Hok. fuel_S fuel f Hf. fuel_S f f2 Hf. fuel_S f2 f3 Hf. intros v Hv.
     change (eval ord (ESlice l a b c r) v)
       with (x <- lhs_eval l v ;;
             match x with
@@ -580,10 +604,11 @@ Proof.
     apply (project_agrees (S (S f3)) (rhs_node r) (rhs_eval r)); [|exact Pys].
     apply IHr; [lia | assumption | lia].
   - (* EListProj *)
-    change (esize (EListProj l r)) with (S (S (osize l + rsize r))) in *.
+    change (esize (EListProj l r)) with (S (S (osize l + rsize r))) in Hn.
     change (sem_ok (EListProj l r)) with (ook l && rok r) in Hok.
+    change (compile (EListProj l r)) with (N0 ASTProjection [lhs_node l; rhs_node r]) in *.
+
     split_ok Hok. fuel_S fuel f Hf. intros v Hv.
-    change (compile (EListProj l r)) with (N0 ASTProjection [lhs_node l; rhs_node r]).
     change (eval ord (EListProj l r) v)
       with (x <- lhs_eval l v ;;
             match x with
@@ -598,10 +623,11 @@ Proof.
     apply (project_agrees f (rhs_node r) (rhs_eval r)); [|exact P].
     apply IHr; [lia | assumption | lia].
   - (* EFlatten *)
-    change (esize (EFlatten l r)) with (S (S (S (osize l + rsize r)))) in *.
+    change (esize (EFlatten l r)) with (S (S (S (osize l + rsize r)))) in Hn.
     change (sem_ok (EFlatten l r)) with (ook l && rok r) in Hok.
+    change (compile (EFlatten l r)) with (N0 ASTProjection [N0 ASTFlatten [lhs_node l]; rhs_node r]) in *.
+
     split_ok Hok. fuel_S fuel f Hf. fuel_S f f2 Hf. intros v Hv.
-    change (compile (EFlatten l r)) with (N0 ASTProjection [N0 ASTFlatten [lhs_node l]; rhs_node r]).
     change (eval ord (EFlatten l r) v)
       with (x <- lhs_eval l v ;;
             match x with
@@ -616,10 +642,11 @@ Proof.
     cbn [bind]. apply (project_agrees (S f2) (rhs_node r) (rhs_eval r)); [|apply plain_flatten1; exact P].
     apply IHr; [lia | assumption | lia].
   - (* EFilter *)
-    change (esize (EFilter l c r)) with (S (S (osize l + esize c + rsize r))) in *.
+    change (esize (EFilter l c r)) with (S (S (osize l + esize c + rsize r))) in Hn.
     change (sem_ok (EFilter l c r)) with (ook l && sem_ok c && rok r) in Hok.
+    change (compile (EFilter l c r)) with (N0 ASTFilterProjection [lhs_node l; rhs_node r; compile c]) in *.
+
     split_ok Hok. fuel_S fuel f Hf. intros v Hv.
-    change (compile (EFilter l c r)) with (N0 ASTFilterProjection [lhs_node l; rhs_node r; compile c]).
     set (g := fun el => t <- eval ord c el ;; if truthy t then rhs_eval r el else Ok VNull).
     change (eval ord (EFilter l c r) v)
       with (x <- lhs_eval l v ;;
@@ -649,10 +676,11 @@ Proof.
       destruct (eval ord c el) as [t| | |]; cbn in Hy; try discriminate.
       destruct (truthy t); [eapply (Hr el Pel); exact Hy | inversion Hy; reflexivity].
   - (* EValProj *)
-    change (esize (EValProj l r)) with (S (S (osize l + rsize r))) in *.
+    change (esize (EValProj l r)) with (S (S (osize l + rsize r))) in Hn.
     change (sem_ok (EValProj l r)) with (ook l && rok r) in Hok.
+    change (compile (EValProj l r)) with (N0 ASTValueProjection [lhs_node l; rhs_node r]) in *.
+
     split_ok Hok. fuel_S fuel f Hf. intros v Hv.
-    change (compile (EValProj l r)) with (N0 ASTValueProjection [lhs_node l; rhs_node r]).
     change (eval ord (EValProj l r) v)
       with (x <- lhs_eval l v ;;
             match x with
@@ -667,30 +695,33 @@ Proof.
     apply (project_agrees f (rhs_node r) (rhs_eval r)); [|apply plain_map_snd; apply plain_ord; exact P].
     apply IHr; [lia | assumption | lia].
   - (* ESub *)
-    change (esize (ESub l r)) with (S (esize l + esize r)) in *.
+    change (esize (ESub l r)) with (S (esize l + esize r)) in Hn.
     change (sem_ok (ESub l r)) with (sem_ok l && sem_ok r) in Hok.
+    change (compile (ESub l r)) with (N0 ASTSubexpression [compile l; compile r]) in *.
+
     split_ok Hok. fuel_S fuel f Hf. intros v Hv.
-    change (compile (ESub l r)) with (N0 ASTSubexpression [compile l; compile r]).
     change (eval ord (ESub l r) v) with (x <- eval ord l v ;; eval ord r x).
     rewrite ex_subexpr.
     destruct (IH l ltac:(lia) Hok f ltac:(lia) v Hv) as [E P]. rewrite E.
     destruct (eval ord l v) as [x| | |]; cbn [bind]; try (split; [reflexivity | discriminate]).
     apply (IH r ltac:(lia) Hok0 f ltac:(lia) x (P x eq_refl)).
   - (* EPipe *)
-    change (esize (EPipe l r)) with (S (esize l + esize r)) in *.
+    change (esize (EPipe l r)) with (S (esize l + esize r)) in Hn.
     change (sem_ok (EPipe l r)) with (sem_ok l && sem_ok r) in Hok.
+    change (compile (EPipe l r)) with (N0 ASTPipe [compile l; compile r]) in *.
+
     split_ok Hok. fuel_S fuel f Hf. intros v Hv.
-    change (compile (EPipe l r)) with (N0 ASTPipe [compile l; compile r]).
     change (eval ord (EPipe l r) v) with (x <- eval ord l v ;; eval ord r x).
     rewrite ex_pipe.
     destruct (IH l ltac:(lia) Hok f ltac:(lia) v Hv) as [E P]. rewrite E.
     destruct (eval ord l v) as [x| | |]; cbn [bind]; try (split; [reflexivity | discriminate]).
     apply (IH r ltac:(lia) Hok0 f ltac:(lia) x (P x eq_refl)).
   - (* EOr *)
-    change (esize (EOr l r)) with (S (esize l + esize r)) in *.
+    change (esize (EOr l r)) with (S (esize l + esize r)) in Hn.
     change (sem_ok (EOr l r)) with (sem_ok l && sem_ok r) in Hok.
+    change (compile (EOr l r)) with (N0 ASTOrExpression [compile l; compile r]) in *.
+
     split_ok Hok. fuel_S fuel f Hf. intros v Hv.
-    change (compile (EOr l r)) with (N0 ASTOrExpression [compile l; compile r]).
     change (eval ord (EOr l r) v) with (x <- eval ord l v ;; if truthy x then Ok x else eval ord r v).
     rewrite ex_or.
     destruct (IH l ltac:(lia) Hok f ltac:(lia) v Hv) as [E P]. rewrite E.
@@ -699,10 +730,11 @@ Proof.
     + apply (IH r ltac:(lia) Hok0 f ltac:(lia) v Hv).
     + split; [reflexivity|]. intros r1 Hr1; inversion Hr1; subst. apply P. reflexivity.
   - (* EAnd *)
-    change (esize (EAnd l r)) with (S (esize l + esize r)) in *.
+    change (esize (EAnd l r)) with (S (esize l + esize r)) in Hn.
     change (sem_ok (EAnd l r)) with (sem_ok l && sem_ok r) in Hok.
+    change (compile (EAnd l r)) with (N0 ASTAndExpression [compile l; compile r]) in *.
+
     split_ok Hok. fuel_S fuel f Hf. intros v Hv.
-    change (compile (EAnd l r)) with (N0 ASTAndExpression [compile l; compile r]).
     change (eval ord (EAnd l r) v) with (x <- eval ord l v ;; if truthy x then eval ord r v else Ok x).
     rewrite ex_and.
     destruct (IH l ltac:(lia) Hok f ltac:(lia) v Hv) as [E P]. rewrite E.
@@ -711,10 +743,11 @@ Proof.
     + split; [reflexivity|]. intros r1 Hr1; inversion Hr1; subst. apply P. reflexivity.
     + apply (IH r ltac:(lia) Hok0 f ltac:(lia) v Hv).
   - (* ECmp *)
-    change (esize (ECmp op l r)) with (S (esize l + esize r)) in *.
+    change (esize (ECmp op l r)) with (S (esize l + esize r)) in Hn.
     change (sem_ok (ECmp op l r)) with (sem_ok l && sem_ok r) in Hok.
+    change (compile (ECmp op l r)) with (Node ASTComparator (NVTok (cmp_tok op)) [compile l; compile r]) in *.
+
     split_ok Hok. fuel_S fuel f Hf. intros v Hv.
-    change (compile (ECmp op l r)) with (Node ASTComparator (NVTok (cmp_tok op)) [compile l; compile r]).
     rewrite ex_cmp. cbn [eval].
     destruct (IH l ltac:(lia) Hok f ltac:(lia) v Hv) as [E P]. rewrite E.
     destruct (eval ord l v) as [x| | |]; cbn [bind]; try (split; [reflexivity | discriminate]).
@@ -728,12 +761,33 @@ Qed.
 
 (* the statement used by the property files *)
 Corollary execute_is_eval e v fuel :
-  sem_ok e = true -> plain v = true -> (esize e <= fuel)%nat ->
+  sem_ok e = true -> plain v = true -> (node_depth (compile e) <= fuel)%nat ->
   Execute ord fuel (compile e) v = eval ord e v.
 Proof. intros Hok Hv Hf. apply (execute_eval (esize e) e (le_n _) Hok fuel Hf v Hv). Qed.
 
 Corollary eval_plain e v r :
   sem_ok e = true -> plain v = true -> eval ord e v = Ok r -> plain r = true.
-Proof. intros Hok Hv Hr. eapply (execute_eval (esize e) e (le_n _) Hok (esize e) (le_n _) v Hv). exact Hr. Qed.
+Proof.
+  intros Hok Hv Hr.
+  eapply (execute_eval (esize e) e (le_n _) Hok (node_depth (compile e)) (le_n _) v Hv). exact Hr.
+Qed.
+
+(* the depth of an AST is at most its size: Api.exec_fuel is enough *)
+Lemma node_depth_le_size (n : node) : (node_depth n <= node_size n)%nat.
+Proof.
+  revert n. fix IH 1. intros [ty val ch]. cbn [node_depth node_size].
+  assert (H : (fold_right (fun x a => Nat.max (node_depth x) a) 0 ch
+               <= fold_right (fun x a => node_size x + a) 0 ch)%nat).
+  { induction ch as [|c ch IHc]; cbn; [lia|]. specialize (IH c). lia. }
+  lia.
+Qed.
+
+Corollary search_compiled_is_eval e v :
+  sem_ok e = true -> plain v = true ->
+  Api.search_compiled ord (compile e) v = eval ord e v.
+Proof.
+  intros Hok Hv. unfold Api.search_compiled, Api.exec_fuel. apply execute_is_eval; auto.
+  pose proof (node_depth_le_size (compile e)). lia.
+Qed.
 
 End WithNum.
